@@ -215,7 +215,9 @@ def pipeline_dataset(chk, r, S, work, d, reqs, expect):
     lonely = d % 4 == 1   # a single sample: its read-less locus ("nodepth") cannot reach threshold 1.0 -> NOA record
     ds = S.make_dataset(r, dsdir, n_samples=1 if lonely else 3, n_loci=r.choice([4, 5]),
                         ploidies=r.choice([(2, 4), (2,), (4, 2, 2)]), max_snvs=4, features={"nodepth"},
-                        depth=(1, 3) if hard else (4, 14), n_contigs=r.choice([1, 2]), contig_len=r.choice([600, 400]))
+                        depth=(1, 3) if hard else (4, 14), n_contigs=r.choice([1, 2]), contig_len=r.choice([600, 400]),
+                        iupac=(0.08 if d % 3 == 0 else 0.0))     # a reference with IUPAC ambiguity codes between the SNVs
+    chk.count(f"pipeline:reference-with-ambiguity-codes={d % 3 == 0}")
     chk.count(f"pipeline:contigs={len(ds.contigs)}")
     extra = ["--haplotype-posterior-threshold", "1.0" if lonely else r.choice(["1.0", "1.0", "0.95"])] if hard else []
     key0 = {"dataset": d}
@@ -245,7 +247,8 @@ def pipeline_dataset(chk, r, S, work, d, reqs, expect):
     _, arecs = S.parse_vcf_text(out)
     agz = S.bgzip_tabix_vcf(S.write_text(os.path.join(dsdir, "assemble.vcf"), out))
     got = [(a["CHROM"], a["POS"], a["ID"], a["REF"]) for a in arecs]
-    want = [(c, s_ + 1, n, ds.contigs[c][s_:e]) for c, s_, e, n in targets]
+    refseq = {c_: (ds.fasta_contigs.get(c_) or ds.contigs[c_]).upper() for c_ in ds.contigs}     # the reference as written to the FASTA
+    want = [(c, s_ + 1, n, refseq[c][s_:e]) for c, s_, e, n in targets]
     if got != want:
         chk.violation("assemble did not print one record per target with POS = start + 1 and REF = the reference sequence of the window",
                       {**key0, "got": got, "expected": want}, "C12/pipeline/assemble-records")
@@ -290,7 +293,7 @@ def pipeline_dataset(chk, r, S, work, d, reqs, expect):
     _, rrecs = S.parse_vcf_text(out)
     # "contig:start-stop" is read as 0-based half-open by the code; 1-based inclusive would be a legitimate convention too
     ok = len(rrecs) == 1 and rrecs[0]["CHROM"] == c and \
-        rrecs[0]["REF"] == ds.contigs[c][rrecs[0]["POS"] - 1:rrecs[0]["POS"] - 1 + len(rrecs[0]["REF"])] and \
+        rrecs[0]["REF"] == refseq[c][rrecs[0]["POS"] - 1:rrecs[0]["POS"] - 1 + len(rrecs[0]["REF"])] and \
         (rrecs[0]["POS"] - 1, len(rrecs[0]["REF"])) in ((s_, e - s_), (s_ - 1, e - s_ + 1))
     if not ok:
         chk.violation("assemble --region did not print exactly one record covering the region whose REF is the reference sequence at its POS",
